@@ -50,6 +50,14 @@ func (m *C05) OnBlock(e *Env, blk *world.BlockRecord) {
 			m.nReset++
 			e.St.Trace("de-reset")
 		}
+		// committees are drawn from members that have a queued nonce, so taking a committee member's next nonce can never fail:
+		// a transaction that dies with "DE not found" means a member without a queued nonce was put on a committee
+		if !tx.OK() && tx.Result.Codespace == tsstypes.ModuleName && tx.Result.Code == tsstypes.ErrDENotFound.ABCICode() {
+			if _, isDE := tx.Intent.Meta.(*deMeta); !isDE {
+				e.Fail("C05", "member_without_nonce_on_committee", "", "transaction %s failed with %q: a committee was drawn that contains a member without a queued nonce", tx.Intent.Tag, firstLine(tx.Result.Log))
+				return
+			}
+		}
 		if rq, ok := tx.Intent.Meta.(*reqSigMeta); ok && !tx.OK() && rq.Kind == "rollback" {
 			m.nRollback++
 			e.St.Trace("req-rollback")
